@@ -157,7 +157,7 @@ class Equal(Logic):
         self.b = b
         self.r = r
 
-        w = a.getWidth()
+        w = max(a.getWidth(), b.getWidth())
         
         xor = self.wire('xor', w)
         
